@@ -1,6 +1,7 @@
 (* Properties_C11.v -- C11 (log side): whatever the bytes, every record the reader returns is made
    of physical records whose stored CRC verified.  Table-side theorems are added from TableProofs. *)
 From LCDB Require Import Base Crc32c LogFormat LogFormatProofs LogFormatClosed.
+From LCDB Require Import Block TableFormat CrcBurst CrcBurstTable.
 Theorem C11_log_no_invention : forall f r, In (Rec r) (read_log f) ->
   exists frags, r = concat frags /\ Forall (fun p => In p (verified_payloads f)) frags.
 Proof. exact read_log_no_invention_structural. Qed.
@@ -9,3 +10,84 @@ Theorem C11_log_verified_means_crc : forall f ty p,
   In (PRec ty p) (phys_events true f) -> is_verified_substring f ty p.
 Proof. exact phys_events_verified. Qed.
 Print Assumptions C11_log_verified_means_crc.
+
+(* ---- Deterministic core of CRC detection (CrcBurst.v / CrcBurstTable.v) ---- *)
+Local Open Scope N_scope.
+
+(* CRC-32C as modelled detects, for messages of any length, every alteration confined to 32
+   consecutive bits (bit j of byte i = position 8*i+j). *)
+Theorem C11_crc_detects_burst : forall pre d e post,
+  length d = length e -> wf_bytes e = true -> all_zero e = false -> burst_le_32 e ->
+  crc_value (pre ++ xor_bytes d e ++ post) <> crc_value (pre ++ d ++ post).
+Proof. exact crc_detects_burst. Qed.
+Print Assumptions C11_crc_detects_burst.
+
+(* Table side: a stored block  data ++ [ty] ++ le32 (masked crc)  read with checksum
+   verification on.  One bit of data ++ [ty] flipped: Corruption. *)
+Theorem C11_bit_flip_in_block_detected :
+  forall pre data ty data' ty' a b j z c0 c1 c2 c3 post file,
+  wf_bytes (data ++ [ty]) = true ->
+  data ++ [ty] = a ++ b :: z -> data' ++ [ty'] = a ++ N.lxor b (2 ^ j) :: z ->
+  j < 8 ->
+  le32 (crc_mask (crc_extend (crc_value data) [ty])) = [c0; c1; c2; c3] ->
+  file = pre ++ (data' ++ [ty'; c0; c1; c2; c3]) ++ post ->
+  nlen file < 18446744073709551616 ->
+  read_block file (nlen file) true (nlen pre, nlen data') = Ok (RBerr SCorruption).
+Proof. exact read_block_rejects_bit_flip. Qed.
+Print Assumptions C11_bit_flip_in_block_detected.
+
+(* One byte of data ++ [ty] overwritten by a different value: Corruption. *)
+Theorem C11_byte_overwrite_in_block_detected :
+  forall pre data ty data' ty' a b b' z c0 c1 c2 c3 post file,
+  wf_bytes (data ++ [ty]) = true ->
+  data ++ [ty] = a ++ b :: z -> data' ++ [ty'] = a ++ b' :: z ->
+  b' < 256 -> b' <> b ->
+  le32 (crc_mask (crc_extend (crc_value data) [ty])) = [c0; c1; c2; c3] ->
+  file = pre ++ (data' ++ [ty'; c0; c1; c2; c3]) ++ post ->
+  nlen file < 18446744073709551616 ->
+  read_block file (nlen file) true (nlen pre, nlen data') = Ok (RBerr SCorruption).
+Proof. exact read_block_rejects_byte_overwrite. Qed.
+Print Assumptions C11_byte_overwrite_in_block_detected.
+
+(* Any burst of at most 32 bits in data ++ [ty] (so any 1..4 consecutive bytes): Corruption. *)
+Theorem C11_burst_in_block_detected :
+  forall pre data ty data' ty' c0 c1 c2 c3 post file,
+  wf_bytes (data ++ [ty]) = true -> wf_bytes (data' ++ [ty']) = true ->
+  length data' = length data ->
+  data' ++ [ty'] <> data ++ [ty] ->
+  burst_le_32 (xor_bytes (data' ++ [ty']) (data ++ [ty])) ->
+  le32 (crc_mask (crc_extend (crc_value data) [ty])) = [c0; c1; c2; c3] ->
+  file = pre ++ (data' ++ [ty'; c0; c1; c2; c3]) ++ post ->
+  nlen file < 18446744073709551616 ->
+  read_block file (nlen file) true (nlen pre, nlen data') = Ok (RBerr SCorruption).
+Proof. exact read_block_rejects_altered_block. Qed.
+Print Assumptions C11_burst_in_block_detected.
+
+(* Only the four stored checksum bytes altered: Corruption. *)
+Theorem C11_crc_field_alteration_in_block_detected :
+  forall pre data ty c0 c1 c2 c3 c0' c1' c2' c3' post file,
+  wf_bytes (data ++ [ty]) = true ->
+  le32 (crc_mask (crc_extend (crc_value data) [ty])) = [c0; c1; c2; c3] ->
+  c0' < 256 -> c1' < 256 -> c2' < 256 -> c3' < 256 ->
+  [c0'; c1'; c2'; c3'] <> [c0; c1; c2; c3] ->
+  file = pre ++ (data ++ [ty; c0'; c1'; c2'; c3']) ++ post ->
+  nlen file < 18446744073709551616 ->
+  read_block file (nlen file) true (nlen pre, nlen data) = Ok (RBerr SCorruption).
+Proof. exact read_block_rejects_altered_crc_field. Qed.
+Print Assumptions C11_crc_field_alteration_in_block_detected.
+
+(* Log side: a written physical record with one such burst in ty :: payload is answered
+   with a bad-record event, never with a record. *)
+Theorem C11_log_record_alteration_detected :
+  forall f eof ty payload ty' payload' c0 c1 c2 c3 a b tail,
+  wf_bytes (ty :: payload) = true -> wf_bytes (ty' :: payload') = true ->
+  length payload' = length payload ->
+  ty' :: payload' <> ty :: payload ->
+  burst_le_32 (xor_bytes (ty' :: payload') (ty :: payload)) ->
+  nlen payload < 65536 ->
+  phys_record ty payload = c0 :: c1 :: c2 :: c3 :: a :: b :: ty :: payload ->
+  exists r,
+    parse_block (S f) true eof (c0 :: c1 :: c2 :: c3 :: a :: b :: ty' :: payload' ++ tail)
+    = PBad r :: (if eof then [PEof] else []).
+Proof. exact log_reader_rejects_altered_record. Qed.
+Print Assumptions C11_log_record_alteration_detected.
